@@ -84,10 +84,19 @@ func (m *Miner) spendableAt(kind int, height uint32) bool {
 	switch kind {
 	case KP2WPKH, KP2SHWPKH, KP2WSHTrue:
 		return p.SegwitHeight != 0 && height >= p.SegwitHeight
-	case KP2TR:
+	case KP2TR, KP2TRS:
 		return p.TaprootHeight != 0 && height >= p.TaprootHeight
 	}
 	return true
+}
+
+// txOutKinds: what transactions (not coinbases: the fixed prefix stays as it is) pay to.
+func (m *Miner) txOutKinds(height uint32) []int {
+	k := m.outKinds(height)
+	if p := m.L.P; p.TaprootHeight != 0 && height >= p.TaprootHeight {
+		k = append(k, KP2TRS)
+	}
+	return k
 }
 
 // Coinbase builds the coinbase of a block at height paying total to nOut outputs.
@@ -206,7 +215,7 @@ func (m *Miner) MakeTx(height uint32, ins []CoinRef, nOut int, fee uint64, corru
 		fee = total / 2
 	}
 	rem := total - fee
-	kinds := m.outKinds(height)
+	kinds := m.txOutKinds(height)
 	if nOut < 1 {
 		nOut = 1
 	}
@@ -238,7 +247,7 @@ func (m *Miner) SignAll(t *Tx, spent []Coin, corruptIdx, corrupt int) map[string
 	t.Valid = make([]bool, len(t.In))
 	for i := range t.In {
 		ht := hashTypes[m.R.Intn(len(hashTypes))]
-		if k, _ := m.W.Spendable(spent[i].Pk); k == KP2TR {
+		if k, _ := m.W.Spendable(spent[i].Pk); k == KP2TR || k == KP2TRS {
 			if m.R.Chance(0.4) {
 				ht = 0
 			}
@@ -320,6 +329,19 @@ func (m *Miner) Build(parent *Node, o BlockOpts) (b *Block, ok bool) {
 			break
 		}
 		k := 1 + m.R.Pick(60, 25, 10, 5)
+		if n == 0 && (o.Viol == "sigops-over" || o.Viol == "ok-sigops-exact") && m.R.Chance(0.6) {
+			// several P2SH-wrapped segwit inputs: their sigops are found neither in the output script nor in
+			// the redeem script but in the witness (cost 1 each, not scaled)
+			var wr []CoinRef
+			for _, c := range av {
+				if kd, _ := m.W.Spendable(c.Coin.Pk); kd == KP2SHWPKH {
+					wr = append(wr, c)
+				}
+			}
+			if len(wr) >= 4 {
+				av, k = wr, 4+m.R.Intn(3)
+			}
+		}
 		ins, _ := pick(av, k)
 		corruptIdx, corrupt := -1, COk
 		nOut := 1 + m.R.Pick(40, 30, 15, 10, 5)
@@ -331,13 +353,13 @@ func (m *Miner) Build(parent *Node, o BlockOpts) (b *Block, ok bool) {
 			case "tap-undef-hashtype", "tap-single-oor":
 				// needs a taproot coin as the corrupted input
 				for i, c := range ins {
-					if kd, _ := m.W.Spendable(c.Coin.Pk); kd == KP2TR {
+					if kd, _ := m.W.Spendable(c.Coin.Pk); kd == KP2TR || kd == KP2TRS {
 						corruptIdx = i
 					}
 				}
 				if corruptIdx < 0 {
 					for _, c := range m.Spendables(view, height, used) {
-						if kd, _ := m.W.Spendable(c.Coin.Pk); kd == KP2TR {
+						if kd, _ := m.W.Spendable(c.Coin.Pk); kd == KP2TR || kd == KP2TRS {
 							ins = append(ins, c)
 							used[c.Op] = true
 							corruptIdx = len(ins) - 1
@@ -982,7 +1004,9 @@ func (m *Miner) MutateC05(parent *Node, b *Block, kind string, now int64) bool {
 			return false
 		}
 		cb := b.Txs[0]
-		switch m.R.Intn(3) {
+		switch m.R.Intn(4) {
+		case 3:
+			cb.In[0].Wit = nil // commitment output present, coinbase without any witness (serialised in legacy form)
 		case 0:
 			cb.In[0].Wit = [][]byte{make([]byte, 31)}
 		case 1:
